@@ -10,7 +10,7 @@ META = dict(
     technique="Coq proof (induction over registries, entry lists and firing sequences) over a Gallina transcription of "
               "TaskiqScheduler.on_ready / AsyncKicker message preparation / LabelScheduleSource + differential "
               "correspondence with the real classes",
-    level_text="Theorems C16_cancel, C16_payload, C16_listing, C16_remove_one (every registry, every entry list with duplicates "
+    level_text="Theorems C16_cancel, C16_payload, C16_listing, C16_remove_one, C16_remove_one_any_order (every registry, every entry list with duplicates "
                "and equal times, every firing sequence) hold for the model coq/theories/SchedSource.v; the model is tied to "
                "/repo on every run by evaluating it in Coq (vm_compute) on the same schedules / registries / histories the real "
                "on_ready, get_schedules and post_send just ran on (listing, registry state after every step incl. the in-place "
@@ -450,11 +450,11 @@ def run(ctx):
     if corpus:
         explore(ctx, rep, corpus, "corpus")
     r = ctx.sub_rng("gen")
-    cases = [gen_fire(r) for _ in range(ctx.n(600, 20000))] + [gen_label(r) for _ in range(ctx.n(900, 40000))]
+    cases = [gen_fire(r) for _ in range(ctx.n(600, 15000))] + [gen_label(r) for _ in range(ctx.n(900, 25000))]
     broken = explore(ctx, rep, cases, "main")
     if (broken or any(not o["ok"] for o in rep.obligations)) and not rep.failures:
         r2 = ctx.sub_rng("search")
-        explore(ctx, rep, [gen_fire(r2) for _ in range(ctx.n(3000, 20000))] + [gen_label(r2) for _ in range(ctx.n(5000, 40000))],
+        explore(ctx, rep, [gen_fire(r2) for _ in range(ctx.n(2000, 20000))] + [gen_label(r2) for _ in range(ctx.n(3000, 40000))],
                 "search")
     return rep.finish()
 
